@@ -618,8 +618,11 @@ def r8_prerequisites(ctx):
     F2 (tiebreak_set returns a strict order of singletons: random fallback behind the still-tied test),
     the quota formulas (at most m candidates can reach the Droop quota), and the agreement of the two
     STV constructions in Alaska (a diverging replay raises IndexError / reports other winners)."""
-    from rules import c10, c02, c13
+    from rules import c10, c02, c13, c09
     picks = [(c10.r4_fallback, lambda o: True), (c10.r5_groups_obey, lambda o: True), (c02.r1_quota, lambda o: True),
+             (c02.r6_elimination, lambda o: True), (c09.r2_writes_guarded, lambda o: ".stv.STV." in o.function),
+             (c09.r7_no_shared_mutable_state, lambda o: o.status != "DISCHARGED" or "mutate" in o.construct),
+             (c10.r2_only_in_tie, lambda o: True),
              (c13.r3_alaska, lambda o: "get_profile" in o.construct or "stage 1" in o.construct or "STV" in o.construct)]
     n = 0
     for fn, keep in picks:
